@@ -77,4 +77,17 @@ def witnesses : List (String × Cfg × List Label) :=
   [("submit-after-stop", cfg1, run1), ("close-lock-deadlock", cfg2, run2),
    ("concurrent-receive", cfg3, run3), ("unseq-after-close", cfg4, run4)]
 
+/-! #### 5. connect, then the peer's disconnect before the wrapper has installed its close callback
+`soup.connect` before the fix built the wrapper on the caller's thread, after `execute(connect_async(…))` had returned:
+the loop thread could process the peer's disconnect in between.  `AsyncSession.close()` then finds no callback; nothing
+ever stops the executor or sets `closed_event`; a later `close()` waits for that event for ever. -/
+theorem C20_witness_connect_race :
+    closeReturns (connRun [.loginReturns, .sessionCloses, .install]) = false ∧
+    (connRun [.loginReturns, .sessionCloses, .install]).installed = true := by decide
+
+/-- the same three things with login and installation in one step (the repaired `connect`): `close()` returns -/
+theorem C20_witness_connect_race_repaired :
+    closeReturns (connRun [.loginAndInstall, .sessionCloses]) = true ∧
+    closeReturns (connRun [.sessionCloses, .loginAndInstall, .sessionCloses]) = true := by decide
+
 end NasdaqModel.Witness.C20
